@@ -31,9 +31,11 @@ ASSUMPTIONS = ['a formula operand is true when the process is STARTING/BACKOFF/R
                'constructs whose meaning the statement leaves open (all(a, b), any() of a constant) only require '
                '"no exception, no side effect"']
 FLOORS = {'quick': {'definition_comparisons': 20000, 'valid_formula_comparisons': 10000,
-                    'hostile_formula_evaluations': 10000, 'audit_events_seen': 10000},
+                    'hostile_formula_evaluations': 10000, 'audit_events_seen': 10000,
+                    'nomatch_formula_evaluations': 5000},
           'thorough': {'definition_comparisons': 500000, 'valid_formula_comparisons': 250000,
-                       'hostile_formula_evaluations': 250000, 'audit_events_seen': 250000}}
+                       'hostile_formula_evaluations': 250000, 'audit_events_seen': 250000,
+                       'nomatch_formula_evaluations': 100000}}
 ROUNDS = {'quick': 4000, 'thorough': 40000}
 CASES = {'quick': 32, 'thorough': 64}
 
@@ -235,11 +237,20 @@ def run_case(case):
                     app.add_process(proc)
                     vector[name] = (displayed, proc.expected_exit, prules.required)
                 app.update_sequences()
-                mode = rng.choice(['none', 'valid', 'valid', 'hostile', 'hostile'])
+                mode = rng.choice(['none', 'valid', 'valid', 'hostile', 'hostile', 'nomatch'])
                 formula, expected_value, loaded = None, None, True
                 if mode == 'valid':
                     status = {nm: leaf_ok(vector[nm][0], vector[nm][1]) for nm in names}
                     formula, expected_value = FormulaGen(rng, names, status).expr(rng.randint(0, 4))
+                elif mode == 'nomatch':
+                    # a well-formed formula in which ONE name / pattern matches no process of the application, at any
+                    # place (leaf, argument of any / all, under not / and / or): the statement wants a major failure
+                    status = {nm: leaf_ok(vector[nm][0], vector[nm][1]) for nm in names}
+                    formula, _ = FormulaGen(rng, names, status).expr(rng.randint(0, 3))
+                    literals = list(re.finditer(r'"[^"]*"|\'[^\']*\'', formula))
+                    lit = rng.choice(literals)
+                    bad = rng.choice(['zz_nomatch', 'q[0-9]+', 'nomatch_.*', 'p9[0-9]x', 'P1', 'p1 ', 'p', 'p[7-9]7'])
+                    formula = formula[:lit.start()] + '"' + bad + '"' + formula[lit.end():]
                 elif mode == 'hostile':
                     template = rng.choice(HOSTILE)
                     formula = template.format(p=rng.choice(names))
@@ -266,6 +277,9 @@ def run_case(case):
                 allowed_before = AUDIT.allowed
                 AUDIT.on = True
                 try:
+                    # liveness probe of the audit hook itself (counted in audit_events_seen whatever the code under
+                    # test does: an evaluator that no longer goes through eval() must not make the check inconclusive)
+                    compile('all([True])', '<probe>', 'eval')
                     app.update()
                     app.update()
                     error = None
@@ -313,6 +327,11 @@ def run_case(case):
                         problems.append('valid formula rejected when loaded')
                     elif ser['major_failure'] != (not expected_value):
                         problems.append(f'major_failure {ser["major_failure"]}, formula evaluates to {expected_value}')
+                elif mode == 'nomatch':
+                    counters['nomatch_formula_evaluations'] = counters.get('nomatch_formula_evaluations', 0) + 1
+                    if not ser['major_failure']:
+                        problems.append('no major failure reported although a name / pattern of the formula matches '
+                                        'no process')
                 else:
                     counters['hostile_formula_evaluations'] += 1
                     if not ser['major_failure']:
